@@ -10,6 +10,7 @@ import Ops.Symbols
 import Ops.IO
 import Ops.SeqEnc
 import Ops.EncBuf
+import Ops.C0506
 /- Line-protocol driver of the executable model: one op per line in, one line out. -/
 open Draco
 
@@ -25,7 +26,8 @@ def allOps : List (String × (List String → String)) := List.flatten [
   Ops.symbolOps,
   Ops.ioOps,
   Ops.seqEncOps,
-  Ops.encBufOps]
+  Ops.encBufOps,
+  Ops.c0506Ops]
 
 def dispatch (line : String) : String :=
   match (line.trimAscii.toString.splitOn " ").filter (· ≠ "") with
